@@ -1,5 +1,6 @@
 import PyImpSpec.ExprC
 import PyImpSpec.Gen.Kernels
+import PyImpSpec.Tlm
 
 /-! # C02 — the numeric impedance of every element equals its documented equation
 
@@ -13,70 +14,143 @@ namespace C02
 open Complex
 
 theorem C_impl_eq_eqn (env : String → ℂ) : evalC env Gen.K.C_impl = evalC env Gen.K.C_eqn := by
-  simp only [Gen.K.C_impl, Gen.K.C_eqn]; unfold_eval; elem_tac
+  unfold Gen.K.C_impl Gen.K.C_eqn; kernel_tac
 
 theorem G_impl_eq_eqn (env : String → ℂ) : evalC env Gen.K.G_impl = evalC env Gen.K.G_eqn := by
-  simp only [Gen.K.G_impl, Gen.K.G_eqn]; unfold_eval; elem_tac
+  unfold Gen.K.G_impl Gen.K.G_eqn; kernel_tac
 
 theorem Ga_impl_eq_eqn (env : String → ℂ) : evalC env Gen.K.Ga_impl = evalC env Gen.K.Ga_eqn := by
-  simp only [Gen.K.Ga_impl, Gen.K.Ga_eqn]; unfold_eval; elem_tac
+  unfold Gen.K.Ga_impl Gen.K.Ga_eqn; kernel_tac
 
 theorem H_impl_eq_eqn (env : String → ℂ) : evalC env Gen.K.H_impl = evalC env Gen.K.H_eqn := by
-  simp only [Gen.K.H_impl, Gen.K.H_eqn]; unfold_eval; elem_tac
+  unfold Gen.K.H_impl Gen.K.H_eqn; kernel_tac
 
 theorem Ha_impl_eq_eqn (env : String → ℂ) : evalC env Gen.K.Ha_impl = evalC env Gen.K.Ha_eqn := by
-  simp only [Gen.K.Ha_impl, Gen.K.Ha_eqn]; unfold_eval; elem_tac
+  unfold Gen.K.Ha_impl Gen.K.Ha_eqn; kernel_tac
 
 theorem K_impl_eq_eqn (env : String → ℂ) : evalC env Gen.K.K_impl = evalC env Gen.K.K_eqn := by
-  simp only [Gen.K.K_impl, Gen.K.K_eqn]; unfold_eval; elem_tac
+  unfold Gen.K.K_impl Gen.K.K_eqn; kernel_tac
 
 theorem Ky_impl_eq_eqn (env : String → ℂ) : evalC env Gen.K.Ky_impl = evalC env Gen.K.Ky_eqn := by
-  simp only [Gen.K.Ky_impl, Gen.K.Ky_eqn]; unfold_eval; elem_tac
+  unfold Gen.K.Ky_impl Gen.K.Ky_eqn; kernel_tac
 
 theorem L_impl_eq_eqn (env : String → ℂ) : evalC env Gen.K.L_impl = evalC env Gen.K.L_eqn := by
-  simp only [Gen.K.L_impl, Gen.K.L_eqn]; unfold_eval; elem_tac
+  unfold Gen.K.L_impl Gen.K.L_eqn; kernel_tac
 
 theorem La_impl_eq_eqn (env : String → ℂ) : evalC env Gen.K.La_impl = evalC env Gen.K.La_eqn := by
-  simp only [Gen.K.La_impl, Gen.K.La_eqn]; unfold_eval; elem_tac
+  unfold Gen.K.La_impl Gen.K.La_eqn; kernel_tac
 
 theorem Ls_impl_eq_eqn (env : String → ℂ) : evalC env Gen.K.Ls_impl = evalC env Gen.K.Ls_eqn := by
-  simp only [Gen.K.Ls_impl, Gen.K.Ls_eqn]; unfold_eval; elem_tac
+  unfold Gen.K.Ls_impl Gen.K.Ls_eqn; kernel_tac
 
 theorem Q_impl_eq_eqn (env : String → ℂ) : evalC env Gen.K.Q_impl = evalC env Gen.K.Q_eqn := by
-  simp only [Gen.K.Q_impl, Gen.K.Q_eqn]; unfold_eval; elem_tac
+  unfold Gen.K.Q_impl Gen.K.Q_eqn; kernel_tac
 
 theorem R_impl_eq_eqn (env : String → ℂ) : evalC env Gen.K.R_impl = evalC env Gen.K.R_eqn := by
-  simp only [Gen.K.R_impl, Gen.K.R_eqn]; unfold_eval; elem_tac
+  unfold Gen.K.R_impl Gen.K.R_eqn; kernel_tac
 
 theorem Tlmbo_impl_eq_eqn (env : String → ℂ) : evalC env Gen.K.Tlmbo_impl = evalC env Gen.K.Tlmbo_eqn := by
-  simp only [Gen.K.Tlmbo_impl, Gen.K.Tlmbo_eqn]; unfold_eval; elem_tac
+  unfold Gen.K.Tlmbo_impl Gen.K.Tlmbo_eqn; kernel_tac
 
 theorem Tlmbq_impl_eq_eqn (env : String → ℂ) : evalC env Gen.K.Tlmbq_impl = evalC env Gen.K.Tlmbq_eqn := by
-  simp only [Gen.K.Tlmbq_impl, Gen.K.Tlmbq_eqn]; unfold_eval; elem_tac
+  unfold Gen.K.Tlmbq_impl Gen.K.Tlmbq_eqn; kernel_tac
 
 theorem Tlmbs_impl_eq_eqn (env : String → ℂ) : evalC env Gen.K.Tlmbs_impl = evalC env Gen.K.Tlmbs_eqn := by
-  simp only [Gen.K.Tlmbs_impl, Gen.K.Tlmbs_eqn]; unfold_eval; elem_tac
+  unfold Gen.K.Tlmbs_impl Gen.K.Tlmbs_eqn; kernel_tac
 
 theorem Tlmno_impl_eq_eqn (env : String → ℂ) : evalC env Gen.K.Tlmno_impl = evalC env Gen.K.Tlmno_eqn := by
-  simp only [Gen.K.Tlmno_impl, Gen.K.Tlmno_eqn]; unfold_eval; elem_tac
+  unfold Gen.K.Tlmno_impl Gen.K.Tlmno_eqn; kernel_tac
 
 theorem Tlmnq_impl_eq_eqn (env : String → ℂ) : evalC env Gen.K.Tlmnq_impl = evalC env Gen.K.Tlmnq_eqn := by
-  simp only [Gen.K.Tlmnq_impl, Gen.K.Tlmnq_eqn]; unfold_eval; elem_tac
+  unfold Gen.K.Tlmnq_impl Gen.K.Tlmnq_eqn; kernel_tac
 
 theorem Tlmns_impl_eq_eqn (env : String → ℂ) : evalC env Gen.K.Tlmns_impl = evalC env Gen.K.Tlmns_eqn := by
-  simp only [Gen.K.Tlmns_impl, Gen.K.Tlmns_eqn]; unfold_eval; elem_tac
+  unfold Gen.K.Tlmns_impl Gen.K.Tlmns_eqn; kernel_tac
 
 theorem W_impl_eq_eqn (env : String → ℂ) : evalC env Gen.K.W_impl = evalC env Gen.K.W_eqn := by
-  simp only [Gen.K.W_impl, Gen.K.W_eqn]; unfold_eval; elem_tac
+  unfold Gen.K.W_impl Gen.K.W_eqn; kernel_tac
 
 theorem Wo_impl_eq_eqn (env : String → ℂ) : evalC env Gen.K.Wo_impl = evalC env Gen.K.Wo_eqn := by
-  simp only [Gen.K.Wo_impl, Gen.K.Wo_eqn]; unfold_eval; elem_tac
+  unfold Gen.K.Wo_impl Gen.K.Wo_eqn; kernel_tac
 
 theorem Ws_impl_eq_eqn (env : String → ℂ) : evalC env Gen.K.Ws_impl = evalC env Gen.K.Ws_eqn := by
-  simp only [Gen.K.Ws_impl, Gen.K.Ws_eqn]; unfold_eval; elem_tac
+  unfold Gen.K.Ws_impl Gen.K.Ws_eqn; kernel_tac
 
 theorem Zarc_impl_eq_eqn (env : String → ℂ) : evalC env Gen.K.Zarc_impl = evalC env Gen.K.Zarc_eqn := by
-  simp only [Gen.K.Zarc_impl, Gen.K.Zarc_eqn]; unfold_eval; elem_tac
+  unfold Gen.K.Zarc_impl Gen.K.Zarc_eqn; kernel_tac
+
+
+/-! ## the general transmission line model -/
+
+theorem Tlm_eq8_impl_eq_sym (env : String → ℂ) : evalC env Gen.K.Tlm_eq8_impl = evalC env Gen.K.Tlm_eq8_sym := by
+  unfold Gen.K.Tlm_eq8_impl Gen.K.Tlm_eq8_sym; kernel_tac
+
+theorem Tlm_eq16_impl_eq_sym (env : String → ℂ) : evalC env Gen.K.Tlm_eq16_impl = evalC env Gen.K.Tlm_eq16_sym := by
+  unfold Gen.K.Tlm_eq16_impl Gen.K.Tlm_eq16_sym; kernel_tac
+
+theorem Tlm_eq17_impl_eq_sym (env : String → ℂ) : evalC env Gen.K.Tlm_eq17_impl = evalC env Gen.K.Tlm_eq17_sym := by
+  unfold Gen.K.Tlm_eq17_impl Gen.K.Tlm_eq17_sym; kernel_tac
+
+theorem Tlm_eq18_impl_eq_sym (env : String → ℂ) : evalC env Gen.K.Tlm_eq18_impl = evalC env Gen.K.Tlm_eq18_sym := by
+  unfold Gen.K.Tlm_eq18_impl Gen.K.Tlm_eq18_sym; kernel_tac
+
+theorem Tlm_eq18_variant_impl_eq_sym (env : String → ℂ) : evalC env Gen.K.Tlm_eq18_variant_impl = evalC env Gen.K.Tlm_eq18_variant_sym := by
+  unfold Gen.K.Tlm_eq18_variant_impl Gen.K.Tlm_eq18_variant_sym; kernel_tac
+
+theorem Tlm_eq19_impl_eq_sym (env : String → ℂ) : evalC env Gen.K.Tlm_eq19_impl = evalC env Gen.K.Tlm_eq19_sym := by
+  unfold Gen.K.Tlm_eq19_impl Gen.K.Tlm_eq19_sym; kernel_tac
+
+theorem Tlm_eq20_impl_eq_sym (env : String → ℂ) : evalC env Gen.K.Tlm_eq20_impl = evalC env Gen.K.Tlm_eq20_sym := by
+  unfold Gen.K.Tlm_eq20_impl Gen.K.Tlm_eq20_sym; kernel_tac
+
+theorem Tlm_lm_impl_eq_sym (env : String → ℂ) : evalC env Gen.K.Tlm_lm_impl = evalC env Gen.K.Tlm_lm_sym := by
+  unfold Gen.K.Tlm_lm_impl Gen.K.Tlm_lm_sym; kernel_tac
+
+theorem Tlm_cs_impl_eq_sym (env : String → ℂ) : evalC env Gen.K.Tlm_cs_impl = evalC env Gen.K.Tlm_cs_sym := by
+  unfold Gen.K.Tlm_cs_impl Gen.K.Tlm_cs_sym; kernel_tac
+
+theorem Tlm_ct_impl_eq_sym (env : String → ℂ) : evalC env Gen.K.Tlm_ct_impl = evalC env Gen.K.Tlm_ct_sym := by
+  unfold Gen.K.Tlm_ct_impl Gen.K.Tlm_ct_sym; kernel_tac
+
+theorem Tlm_s_impl_eq_sym (env : String → ℂ) : evalC env Gen.K.Tlm_s_impl = evalC env Gen.K.Tlm_s_sym := by
+  unfold Gen.K.Tlm_s_impl Gen.K.Tlm_s_sym; kernel_tac
+
+/-- the two decision trees select the same formula with the same roles, for all 3⁵ configurations -/
+theorem tlm_branch_agree (fl : Tlm.Flags) : Tlm.implBranch fl = Tlm.symBranch fl := by
+  obtain ⟨a, b, c, d, e⟩ := fl
+  cases a <;> cases b <;> cases c <;> cases d <;> cases e <;> rfl
+
+theorem tlm_env_agree (b : Tlm.Branch) (base : String → ℂ) : Tlm.envOf opsC true b base = Tlm.envOf opsC false b base := by
+  have h1 := Tlm_lm_impl_eq_sym base
+  simp only [evalC] at h1
+  funext k
+  simp only [Tlm.envOf, ↓reduceIte, Bool.false_eq_true, h1]
+  have h2 := Tlm_cs_impl_eq_sym (fun k => if k = "lm" then E.eval opsC base Gen.K.Tlm_lm_sym else base k)
+  have h3 := Tlm_ct_impl_eq_sym (fun k => if k = "lm" then E.eval opsC base Gen.K.Tlm_lm_sym else base k)
+  have h4 := Tlm_s_impl_eq_sym (fun k => if k = "lm" then E.eval opsC base Gen.K.Tlm_lm_sym else base k)
+  simp only [evalC] at h2 h3 h4
+  rw [h2, h3, h4]
+
+/-- **Every configuration of the general transmission line.** For each of the 3⁵ open/short/finite
+configurations of the five sub-circuits and all complex values of the sub-circuit impedances and of `L`,
+the numeric and the symbolic implementation refuse the same configurations and otherwise compute the
+same value. -/
+theorem tlm_numeric_eq_symbolic (fl : Tlm.Flags) (base : String → ℂ) :
+    Tlm.value opsC true fl base = Tlm.value opsC false fl base := by
+  simp only [Tlm.value, ↓reduceIte, Bool.false_eq_true, tlm_branch_agree fl, tlm_env_agree]
+  generalize Tlm.envOf opsC false (Tlm.symBranch fl) base = env
+  cases Tlm.symBranch fl <;> simp only [Tlm.formula, Option.map_none, Option.map_some, ↓reduceIte, Bool.false_eq_true, Option.some.injEq]
+  · exact Tlm_eq8_impl_eq_sym env
+  · exact Tlm_eq16_impl_eq_sym env
+  · exact Tlm_eq17_impl_eq_sym env
+  · exact Tlm_eq18_impl_eq_sym env
+  · exact Tlm_eq18_variant_impl_eq_sym env
+  · exact Tlm_eq19_impl_eq_sym env
+  · exact Tlm_eq20_impl_eq_sym env
+
+/-- the branch formulas found in `/repo` are the seven covered above -/
+theorem all_tlm_branches_covered :
+    Gen.K.tlmBranches = ["_eq8", "_eq16", "_eq17", "_eq18", "_eq18_variant", "_eq19", "_eq20"] := by decide
 
 /-- **Every registered non-container element has its theorem**: the list of element classes found in
 `/repo` by the translator is exactly the list covered above (a new or renamed element breaks this
